@@ -20,7 +20,9 @@ def plan(prop, tier):
 
 
 # comment text is arbitrary bytes: UTF-8 sequences (among them the Unicode line and paragraph
-# separators and NEL, which are not line ends here), other control characters, invalid bytes
+# separators and NEL, which are not line ends here), other control characters, invalid bytes;
+# a bare carriage return does not end a // comment either (only \n does), so what follows it on the
+# line is still comment text
 UTF8 = [b'\xe2\x80\xa8', b'\xe2\x80\xa9', b'\xc2\x85', b'\xc3\xa9', b'\xf0\x9f\x98\x80', b'\xff', b'\x0b', b'\x0c', b'\x7f', b'\xe2\x80', b'\xef\xbb\xbf']
 
 
@@ -34,12 +36,12 @@ def separator(rng, final=False):
     if r < 0.65:
         return b''.join(rng.choice([b' ', b'\t', b'\r', b'\n']) for _ in range(rng.choice([1, 1, 2, 4])))
     if r < 0.85:
-        body = b''.join(rng.choice([b'a', b' ', b'*', b'/', b'"', b'\\', b'* /', b'//', b'/*', b'\n', b'{', b'"x"', b'\\"'] + UTF8) for _ in range(rng.randrange(0, 6)))
+        body = b''.join(rng.choice([b'a', b' ', b'*', b'/', b'"', b'\\', b'* /', b'//', b'/*', b'\n', b'{', b'"x"', b'\\"', b'\r', b'\r\n'] + UTF8) for _ in range(rng.randrange(0, 6)))
         body = body.replace(b'*/', b'* /')
         if body.endswith(b'*') and rng.random() < 0.3:
             body += b' '          # otherwise the comment ends in **/ (or is /***/): still one comment
         return b'/*' + body + b'*/'
-    body = b''.join(rng.choice([b'a', b' ', b'*', b'/', b'"', b'\\', b'*/', b'/*', b'\t', b'}', b'"x', b'\\"'] + UTF8) for _ in range(rng.randrange(0, 6)))
+    body = b''.join(rng.choice([b'a', b' ', b'*', b'/', b'"', b'\\', b'*/', b'/*', b'\t', b'}', b'"x', b'\\"', b'\r', b'\rb', b'\r,'] + UTF8) for _ in range(rng.randrange(0, 6)))
     if final and rng.random() < 0.5:
         return b'//' + body           # unterminated last line
     return b'//' + body + b'\n'
